@@ -221,12 +221,13 @@ def one(run, impl, model, wd, name, crc, ops, ib):
 
 def gen_failing_backup(rng):
     """F<k>: the k-th write to the backup target fails (RLIMIT_FSIZE lowered to the target's size at that moment):
-    main-file chunks, the log-copy loops, the two trailer writes.  Afterwards: more work, sync, another backup."""
+    main-file chunks, the log-copy loops, the two trailer writes; F0: the target cannot be created at all (missing
+    directory).  Afterwards: more work, sync, another backup."""
     ops = ["n1"] + [rnd_op(rng, False) for _ in range(rng.range(3, 12))]
     if rng.chance(1, 3):
         ops.append("p1:%s:%d:%d" % (W.khex(rng.choice(KEYS)), 20000, rng.below(250)))    # several main-file chunks
     ib = len(ops)
-    ops.append("F%d" % rng.range(1, 7))
+    ops.append("F%d" % rng.choice([0, 0, 1, 2, 3, 4, 5, 6]))    # F0: the target cannot even be created
     ops += [rnd_op(rng, False) for _ in range(rng.range(1, 3))] + ["s", "Y", "s"]
     return ops, ib
 
